@@ -51,6 +51,9 @@ def plan(tier, seed):
                 items.append(dict(kind=kind, arch=arch, q=q, part=part, dev=dev))
     for kind, arch in (("positive", [2, 3]), ("complex", [3, 2]), ("mixed", [2, 2, 2]), ("mixed", [3, 1, 3])):
         items.append(dict(kind=kind, arch=arch, scope="stateful"))
+    # strongly polarised states (visible biases around +-10: basis-state probabilities down to 1e-12 and below)
+    for kind, arch in (("mixed", [3, 1, 1]), ("mixed", [2, 2, 2]), ("complex", [3, 2]), ("positive", [3, 2]), ("complex", [4, 2])):
+        items.append(dict(kind=kind, arch=arch, scope="polarised"))
     return items
 
 
@@ -164,6 +167,17 @@ def run_item(item):
     if item.get("scope") == "stateful":
         run_stateful(acc, kind, arch)
         acc.sample(dict(kind=kind, arch=arch, scope="stateful"), cap=1)
+        acc.states = acc.evaluations
+        acc.transitions = acc.counters.get("applies", 0) * (2 + 2 ** arch[0])
+        acc.traces = acc.counters.get("applies", 0)
+        acc.evaluations = max(acc.evaluations, acc.traces)
+        return acc
+    if item.get("scope") == "polarised":
+        from .c10 import polarised_params
+        for q in range(2):
+            params = polarised_params(kind, arch, q)
+            check_case(acc, kind, arch, params)
+            acc.sample(dict(kind=kind, arch=arch, params=params, scope="polarised"), cap=1)
         acc.states = acc.evaluations
         acc.transitions = acc.counters.get("applies", 0) * (2 + 2 ** arch[0])
         acc.traces = acc.counters.get("applies", 0)
